@@ -45,6 +45,7 @@ type Op struct {
 type Thread struct {
 	ID    int
 	Name  string
+	Env   bool // environment thread (e.g. the canceller): switching to or from it is not a preemption
 	wake  chan struct{}
 	op    *Op
 	done  bool
@@ -59,10 +60,12 @@ type rep struct {
 
 // Point records one scheduling decision.
 type Point struct {
-	NEnabled            int   // number of alternatives
-	RunningStillEnabled bool  // the thread that ran last could have continued
-	AltThreads          []int // thread id of each alternative
-	Cur                 int   // id of the thread that ran last (-1 at the start)
+	NEnabled            int    // number of alternatives
+	RunningStillEnabled bool   // the thread that ran last could have continued
+	AltThreads          []int  // thread id of each alternative
+	AltEnv              []bool // the alternative belongs to an environment thread
+	Cur                 int    // id of the thread that ran last (-1 at the start)
+	CurEnv              bool
 }
 
 // Sched is one controlled execution.
@@ -133,6 +136,16 @@ func (t *Thread) Done() bool { return t.done }
 // Go starts fn as a new controlled thread when called from a controlled thread (the child is registered in
 // the parent before it starts); otherwise it is a plain go statement.
 func Go(fn func()) { GoNamed("", fn) }
+
+// GoEnv starts an environment thread: its scheduling is a free choice (not counted as a preemption).
+func GoEnv(name string, fn func()) {
+	s := S
+	if s == nil || !s.active || s.self() == nil {
+		go fn()
+		return
+	}
+	s.spawn(name, fn).Env = true
+}
 
 // GoNamed is Go with a thread name for traces.
 func GoNamed(name string, fn func()) {
@@ -343,7 +356,12 @@ func (s *Sched) Run(main func()) {
 			order = append(order, s.cur)
 		}
 		for _, t := range s.threads {
-			if t != s.cur {
+			if t != s.cur && !t.Env {
+				order = append(order, t)
+			}
+		}
+		for _, t := range s.threads { // environment threads have the lowest default priority
+			if t != s.cur && t.Env {
 				order = append(order, t)
 			}
 		}
@@ -384,14 +402,16 @@ func (s *Sched) Run(main func()) {
 			}
 		}
 		at := make([]int, len(alts))
+		ae := make([]bool, len(alts))
 		for k, a := range alts {
 			at[k] = a.t.ID
+			ae[k] = a.t.Env
 		}
 		curID := -1
 		if s.cur != nil {
 			curID = s.cur.ID
 		}
-		s.Points = append(s.Points, Point{NEnabled: len(alts), RunningStillEnabled: curEnabled, AltThreads: at, Cur: curID})
+		s.Points = append(s.Points, Point{NEnabled: len(alts), RunningStillEnabled: curEnabled, AltThreads: at, AltEnv: ae, Cur: curID, CurEnv: s.cur != nil && s.cur.Env})
 		s.Choices = append(s.Choices, ch)
 		a := alts[ch]
 		if Trace != nil {
